@@ -80,8 +80,149 @@ def run_extra(ctx):
                     violations.append({"key": "e2e-unstable", "cmd": " ".join(cmd[1:]), "sort": mode, "orders": [seen, got]})
                     break
                 seen = got
+    r2, v2 = run_dates(ctx, rnd, exe)
+    r3, v3 = run_reduce(ctx, rnd, exe)
+    runs += r2 + r3
+    violations += v2 + v3
     return {"runs": runs, "violations": violations[:5],
-            "assumptions": ["e2e: the CLI is run on generated files; row order parsed from its piped (snapshot) output"]}
+            "assumptions": ["e2e: the CLI is run on generated files; row order parsed from its piped (snapshot) output",
+                            "e2e date: the CLI runs with TZ=UTC (the model of time.Parse assumes time.Local knows no zone names)"]}
+
+
+ZONE_LAYOUT = "2006-01-02T15:04:05-0700"
+
+
+def zone_key(unix, off):
+    """time.Format(ZONE_LAYOUT) of instant `unix` in the zone `off` seconds east of UTC"""
+    import datetime
+    t = datetime.datetime(1970, 1, 1) + datetime.timedelta(seconds=unix + off)
+    sign = "+" if off >= 0 else "-"
+    a = abs(off)
+    return t.strftime("%Y-%m-%dT%H:%M:%S") + "%s%02d%02d" % (sign, a // 3600, a % 3600 // 60)
+
+
+def driver_order(ctx, case):
+    p = subprocess.run([ctx["driver"]], input=case + "\n", stdout=subprocess.PIPE, text=True, timeout=60)
+    ans = p.stdout.strip()
+    if not ans.startswith("ok"):
+        return None, ans
+    return ([] if ans == "ok ." else [bytes.fromhex(h).decode() for h in ans[3:].split(";")]), ans
+
+
+def run_dates(ctx, rnd, exe):
+    """--sort date on keys that denote the same instants in several zones, several delivery orders, histo / table rows /
+    table columns / heatmap rows; the specified order comes from the model of time.Parse (dsortspec)."""
+    work = ctx["work"]
+    env = dict(os.environ, TZ="UTC")
+    violations, runs = [], 0
+    nsets = 3 if ctx["tier"] == "quick" else 25
+    for si in range(nsets):
+        base = 1662199200 + rnd.intn(400) * 86400 - 200 * 86400
+        instants = [base] + [base + rnd.pick([1, -1, 60, 3600, -3600, 1800, -7200]) for _ in range(rnd.intn(3))]
+        keys = []
+        for _ in range(3 + rnd.intn(5)):
+            k = zone_key(rnd.pick(instants), rnd.pick([0, 0, 3600, 7200, -18000, 19800, -12600, 20700, 50400, -43200]))
+            if k not in keys:
+                keys.append(k)
+        vals = [rnd.pick([1, 2, 2, 3, 5]) for _ in keys]
+        for mode in ["date", "date:desc"]:
+            case = "C13 dsortspec %s %s %s %s %s" % (hexs(mode), ";".join(hexs(k) for k in keys), ",".join(map(str, vals)),
+                                                   ",".join(str(i) for i in range(len(keys))), ";".join(hexs(ZONE_LAYOUT) for _ in keys))
+            want, ans = driver_order(ctx, case)
+            if want is None:
+                violations.append({"key": "e2e-driver", "case": case, "model": ans})
+                continue
+            for delivery in range(3):
+                lines = []
+                for k, v in zip(keys, vals):
+                    parts = [1] * v if rnd.intn(2) else [v]
+                    lines += ["%s %d" % (k, q) for q in parts]
+                for i in range(len(lines) - 1, 0, -1):
+                    j = rnd.intn(i + 1)
+                    lines[i], lines[j] = lines[j], lines[i]
+                f = os.path.join(work, "e2e-date.txt")
+                open(f, "w").write("\n".join(lines) + "\n")
+                sub = rnd.pick(["histo", "table-rows", "table-cols", "heatmap-rows"])
+                if sub == "histo":
+                    cmd = [exe, "histo", "-m", r"(\S+) (\d+)", "-e", "{$ {1} {2}}", "--sort", mode, "-n", "100"]
+                elif sub == "table-rows":
+                    cmd = [exe, "table", "-m", r"(\S+) (\d+)", "-e", "{$ c {1} {2}}", "--sort-rows", mode, "--rows", "100"]
+                elif sub == "table-cols":
+                    cmd = [exe, "table", "-m", r"(\S+) (\d+)", "-e", "{$ {1} r {2}}", "--sort-cols", mode, "--cols", "100"]
+                else:
+                    cmd = [exe, "heatmap", "-m", r"(\S+) (\d+)", "-e", "{$ c {1} {2}}", "--sort-rows", mode, "--rows", "100"]
+                cmd += ["--workers", str(rnd.pick([1, 2, 4])), "--batch", str(rnd.pick([1, 2, 1000])), f]
+                rc, out, err = run(cmd, timeout=120, env=env)
+                runs += 1
+                text = out.decode("utf8", "replace").split("\n")
+                got = []
+                if sub == "table-cols":
+                    got = [w for w in (text[0].split() if text else []) if w in keys]
+                else:
+                    for l in text:
+                        w = l.split()
+                        if w and w[0] in keys:
+                            got.append(w[0])
+                if rc != 0 or got != want:
+                    violations.append({"key": "e2e-date-order", "cmd": " ".join(cmd[1:]), "data": lines, "sort": mode,
+                                       "cli_order": got, "spec_order": want, "rc": rc, "stderr": err.decode("utf8", "replace")[-300:]})
+                    break
+    return runs, violations
+
+
+RGROUPS = ["Mon", "Fri", "Wed", "Sun", "Sat", "Tue", "jan", "Feb", "dec", "abc", "10", "9", "x1"]
+
+
+def run_reduce(ctx, rnd, exe):
+    """`rare reduce -g {1} -a k={2} --sort {k} [--sort-reverse]`: groups with equal sort keys, weekday/month group names,
+    several delivery orders; the specified row order comes from the model (groups op)."""
+    work = ctx["work"]
+    violations, runs = [], 0
+    nsets = 4 if ctx["tier"] == "quick" else 30
+    for si in range(nsets):
+        groups = []
+        for _ in range(3 + rnd.intn(6)):
+            g = rnd.pick(RGROUPS)
+            if g not in groups:
+                groups.append(g)
+        pool = rnd.pick([["1", "2", "3"], ["2", "2", "3", "1", "10"], ["1", "1.0", "2"], ["7"], ["mon", "tue", "Tue", "fri"], ["a", "b", "B"]])
+        skeys = [rnd.pick(pool) for _ in groups]
+        for rev in [0, 1]:
+            for with_sort in [True, False]:
+                case = "C13 groups %d %s %s %s" % (rev, ";".join(hexs(g) for g in groups),
+                                                  ";".join(hexs(k) for k in skeys) if with_sort else ".", ",".join(str(i) for i in range(len(groups))))
+                want, ans = driver_order(ctx, case)
+                if want is None:
+                    if ans.startswith("unmodelled"):
+                        continue
+                    violations.append({"key": "e2e-driver", "case": case, "model": ans})
+                    continue
+                for delivery in range(3):
+                    lines = ["%s %s" % (g, k) for g, k in zip(groups, skeys)]
+                    lines += ["%s %s" % (g, k) for g, k in zip(groups, skeys) if rnd.intn(2)]
+                    for i in range(len(lines) - 1, 0, -1):
+                        j = rnd.intn(i + 1)
+                        lines[i], lines[j] = lines[j], lines[i]
+                    f = os.path.join(work, "e2e-reduce.txt")
+                    open(f, "w").write("\n".join(lines) + "\n")
+                    cmd = [exe, "reduce", "-m", r"(\S+) (\S+)", "-g", "{1}", "-a", "k={2}", "--rows", "100"]
+                    if with_sort:
+                        cmd += ["--sort", "{k}"]
+                    if rev:
+                        cmd += ["--sort-reverse"]
+                    cmd += ["--workers", str(rnd.pick([1, 2, 4])), "--batch", str(rnd.pick([1, 2, 1000])), f]
+                    rc, out, err = run(cmd, timeout=120)
+                    runs += 1
+                    got = []
+                    for l in out.decode("utf8", "replace").split("\n")[1:]:
+                        w = l.split()
+                        if len(w) == 2 and w[0] in groups:
+                            got.append(w[0])
+                    if rc != 0 or got != want:
+                        violations.append({"key": "e2e-reduce-order", "cmd": " ".join(cmd[1:]), "data": lines,
+                                           "cli_order": got, "spec_order": want, "rc": rc, "stderr": err.decode("utf8", "replace")[-300:]})
+                        break
+    return runs, violations
 
 
 def run(*a, **k):  # the check's entry point is run(ctx); otherwise behave like common.run
